@@ -12,10 +12,10 @@ cp $SW/demo.py $OUT/demo.py
 echo "== seeded change $ID, verified $(date -u +%FT%TZ) in scratch worktree $WT (repo HEAD $(git -C /repo rev-parse --short HEAD))"
 echo "-- demo with the change applied (expect exit 1):"
 PYTHONPATH=$WT/src timeout 600 /venv/bin/python -B $SW/demo.py > /tmp/seedwork/$ID/demo_changed.out 2>&1; echo "exit=$?"; tail -5 /tmp/seedwork/$ID/demo_changed.out
-git stash -q
+git apply -R $OUT/patch.diff   # (not `git stash`: the stash is shared by all worktrees of /repo)
 echo "-- demo on the unchanged tree (expect exit 0):"
 PYTHONPATH=$WT/src timeout 600 /venv/bin/python -B $SW/demo.py > /tmp/seedwork/$ID/demo_unchanged.out 2>&1; echo "exit=$?"; tail -3 /tmp/seedwork/$ID/demo_unchanged.out
-git stash pop -q
+git apply $OUT/patch.diff
 echo "-- our checks (quick tier) on the change:"
 cd /verif
 for p in $PROPS; do /venv/bin/python -B -m vf.canary $OUT/patch.diff $p | cut -c1-260 | head -6; done
